@@ -56,6 +56,28 @@ int main(int argc, char** argv) {
             if (rnd.nextInt(2)) cons.push_back({nv - 1, 0, 0, ri(-2, 8)});
             if (rnd.nextInt(2)) cons.push_back({rnd.nextInt(nv), 2, rnd.nextInt(nv), ri(-2, 2)});
         }
+        if (style == 7 || style == 8) {
+            // planted solution: ranges straddling the value-preference windows (around 1..6), constraints consistent with a hidden assignment,
+            // mostly equalities to earlier variables so that only few values of each variable are feasible
+            nv = ri(2, 7);
+            vars.assign(nv, Var());
+            std::vector<int> x(nv);
+            for (int i = 0; i < nv; i++) {
+                Var& v = vars[i];
+                v.lo = ri(-6, 8); v.hi = std::min(47, v.lo + ri(1, 6));
+                v.even = v.odd = false;
+                x[i] = ri(v.lo, v.hi);
+                if (rnd.nextInt(3) == 0) x[i] = rnd.nextInt(2) ? v.lo : v.hi;       // solutions at the range ends
+            }
+            cons.clear();
+            for (int i = 1; i < nv; i++) {
+                int j = rnd.nextInt(i);
+                int kind = rnd.nextInt(4);
+                if (kind < 2) cons.push_back({i, 2, j, x[i] - x[j]});                 // equality
+                else if (kind == 2) cons.push_back({i, 0, j, x[i] - x[j] + ri(0, 1)});
+                else cons.push_back({i, 1, j, x[i] - x[j] - ri(0, 1)});
+            }
+        }
         std::string sys = "\"vars\":[";
         for (int i = 0; i < nv; i++) {
             const Var& v = vars[i];
@@ -75,12 +97,15 @@ int main(int argc, char** argv) {
         }
         sys += "]";
         std::string res = "[";
-        for (int pref = 0; pref < 4; pref++) {
+        std::vector<int> mixed(nv);
+        for (int i = 0; i < nv; i++) mixed[i] = rnd.nextInt(4);
+        for (int pref = 0; pref < 5; pref++) {
             std::ostringstream log;
             CspSolver solver(log, true);
             for (const Var& v : vars) {
-                if (v.lo > v.hi) { int id = solver.addVariable((CspSolver::PrefVal)pref, v.hi, v.lo); solver.addMinVal(id, v.lo); solver.addMaxVal(id, v.hi); }
-                else solver.addVariable((CspSolver::PrefVal)pref, v.lo, v.hi);
+                CspSolver::PrefVal pv = (CspSolver::PrefVal)(pref < 4 ? pref : mixed[&v - &vars[0]]);
+                if (v.lo > v.hi) { int id = solver.addVariable(pv, v.hi, v.lo); solver.addMinVal(id, v.lo); solver.addMaxVal(id, v.hi); }
+                else solver.addVariable(pv, v.lo, v.hi);
             }
             for (int i = 0; i < nv; i++) {
                 if (vars[i].even) solver.makeEven(i);
